@@ -30,12 +30,14 @@ LEFT = {
     'chain-branch': ('CC({t}F)', 'C|C({t}F)'),   # methyl - anchor(ligand); '|' marks a cut point "elsewhere"
     'ethyl-first': ('F{t}C(CC)', None),
     'S-aryl-branch': ('CSc1ccccc1C({t}F)', 'CSc1ccccc1|C({t}F)'),
+    'branch-bracket': ('C({t}[F])', None),      # the mark is directly followed by a bracket atom
 }
 RIGHT = {
     'after': ('C{t}Cl', None),
     'branch': ('C({t}Cl)C', None),
     'branch-tail': ('C({t}Cl)CC', 'C({t}Cl)C|C'),
     'tail-first': ('C(CC){t}Cl', 'C(C|C){t}Cl'),
+    'after-bracket': ('C{t}[Cl]', None),
 }
 TOK = ('/', '\\')
 
@@ -168,11 +170,12 @@ def run_task(task, R):
                     continue
                 n = len(fr[0])
                 for order in itertools.permutations(range(n)):
-                    ex.states += 1
-                    ex.transitions += 1
-                    inp = {'family': 'db', 'lf': lf, 'rf': rf, 'rel': rel, 'tl': tl, 'tr': tr, 'cut': cut, 'kind': kind,
-                           'order': order, 'diene': bool(task.get('diene'))}
-                    R.record(inp, evaluate(inp))
+                    for deforder in itertools.permutations(range(n)):
+                        ex.states += 1
+                        ex.transitions += 1
+                        inp = {'family': 'db', 'lf': lf, 'rf': rf, 'rel': rel, 'tl': tl, 'tr': tr, 'cut': cut, 'kind': kind,
+                               'order': order, 'deforder': deforder, 'diene': bool(task.get('diene'))}
+                        R.record(inp, evaluate(inp))
     R.add_explorer(ex)
 
 
@@ -204,7 +207,8 @@ def build_db(inp):
             s += '.'
         s += '[#%s]%s' % (names[i], marks[i])
     base = '{' + s + '}'
-    fragstr = '{' + ','.join('#F%d=%s' % (i, t) for i, t in enumerate(frs)) + '}'
+    deforder = inp.get('deforder') or tuple(range(n))
+    fragstr = '{' + ','.join('#F%d=%s' % (i, frs[i]) for i in deforder) + '}'
     return base + '.' + fragstr
 
 
